@@ -243,6 +243,7 @@ def sizes(cfg, reader, case):
     bd, hd = durations(cfg)
     fl, razor = exact_floor(bd, sr)
     ok = {fl, fl + 1} if razor else {fl}
+    ok.discard(0)  # a reader that was accepted has blocks of at least one sample
     if reader.block_size not in ok:
         raise Violation(f"block_size {reader.block_size} for block_dur={bd!r} at {sr} Hz, expected {sorted(ok)}", case)
     if reader.block_dur != reader.block_size / sr:
@@ -272,7 +273,30 @@ def check_case(case, rec):
     try:
         if cfg.get("reject"):
             how = cfg["reject"]
-            if how == "hop_ulp_above":
+            if how == "one_sample_float":
+                # exactly 1/rate seconds at a rate where the float product (1/rate)*rate falls short of 1: either the
+                # reader is refused, or it has one-sample blocks - never blocks of zero samples
+                sr_ = cfg["odd_rate"]
+                data_ = content(cfg["N"], cfg["sw"] * cfg["ch"], cfg["salt"])
+                try:
+                    rd = auditok.AudioReader(data_, block_dur=1 / sr_, sampling_rate=sr_, sample_width=cfg["sw"], channels=cfg["ch"])
+                except ValueError:
+                    rec.note(case, True, {"rejected", "block_of_one_over_rate"}, out="ValueError")
+                    return
+                if rd.block_size != 1:
+                    raise Violation(f"AudioReader(block_dur=1/{sr_}, rate {sr_}) accepted with block_size {rd.block_size}", case)
+                rd.open()
+                got_ = []
+                while True:
+                    b_ = rd.read()
+                    if b_ is None:
+                        break
+                    got_.append(b_)
+                if b"".join(got_) != data_:
+                    raise Violation(f"one-sample blocks at {sr_} Hz do not add up to the input", case)
+                rec.note(case, True, {"block_of_one_over_rate"}, out="accepted")
+                return
+            elif how == "hop_ulp_above":
                 bd_ = (cfg["B"] + cfg.get("fb", 0)) / sr
                 args = dict(block_dur=bd_, hop_dur=math.nextafter(bd_, math.inf))
             elif how == "tiny_block":
@@ -386,6 +410,7 @@ def explicit_cases():
         dict(base, reject="zero_block"),
         dict(base, reject="hop_gt_block", extra=1),
         dict(base, reject="hop_ulp_above"),
+    ] + [dict(base, reject="one_sample_float", odd_rate=r) for r in (49, 98, 103, 107, 161, 187, 196, 10, 16000)] + [
         dict(base, hop_ulp_below=True, N=40),
         dict(base, kind="buffer", mr=[13, 0.5], reopen_after=2),
         dict(base, kind="wav_lazy", mr=[12, 0], reopen_after=1, H=None),
